@@ -16,6 +16,61 @@ func init() {
 		ruleG2(c, "C08.G2")
 		ruleG3(c, "C08.G3")
 		ruleG4(c, "C08.G4")
+		ruleG5(c, "C08.G5")
+	}
+}
+
+// ruleG5: every handle minted for a reply carries the number and the
+// generation of one and the same inode.
+func ruleG5(c *Ctx, id string) {
+	V, P, R := c.V, c.P, c.R
+	R.Rule(id, "handles are minted from one inode: every fh.Fh value built in the server takes Ino and Gen from the same inode object (or is the decoded client handle / the root constants)", 3)
+	fhT := P.Named("fh", "Fh")
+	if fhT == nil {
+		R.Unresolved(id, "fh.Fh")
+		return
+	}
+	for _, fn := range P.RepoFuncs("nfs", "dir", "fstxn") {
+		type pair struct {
+			ino, gen ssa.Value
+			pos      ssa.Instruction
+		}
+		byAlloc := map[ssa.Value]*pair{}
+		for _, b := range fn.Blocks {
+			for _, in := range b.Instrs {
+				st, ok := in.(*ssa.Store)
+				if !ok {
+					continue
+				}
+				n, fl, base := FieldOf(st.Addr)
+				if n != fhT {
+					continue
+				}
+				p := byAlloc[base]
+				if p == nil {
+					p = &pair{pos: in}
+					byAlloc[base] = p
+				}
+				if fl == "Ino" {
+					p.ino = st.Val
+				}
+				if fl == "Gen" {
+					p.gen = st.Val
+				}
+			}
+		}
+		k := 0
+		for _, p := range byAlloc {
+			if p.ino == nil || p.gen == nil {
+				continue
+			}
+			k++
+			n1, f1, b1, _ := loadedField(p.ino)
+			n2, f2, b2, _ := loadedField(p.gen)
+			ok := n1 == V.Inode && n2 == V.Inode && f1 == "Inum" && f2 == "Gen" && b1 != nil && b1 == b2
+			R.Analysed[FuncName(fn)] = true
+			R.Check(ok, id, fmt.Sprintf("%s|handle#%d from one inode", FuncName(fn), k), P.Pos(p.pos.Pos()), "Fh{Ino: x.Inum, Gen: x.Gen} with the same inode x", "same inode object", "the handle combines the number of one object with the generation of another: it is stale at once or, worse, equals the handle of a removed object")
+		}
 	}
 }
 
